@@ -75,3 +75,9 @@ Example C12_nonvacuous_repaired : forall cfg,
   map (fun x => x_hb x) (rx_dev (fst (rrun gf_none r0 ops))) = [{| ss_next := 75202; ss_offset := 10000; ss_period := 60000 |}].
 Proof. intros cfg. vm_compute. repeat split. Qed.
 Print Assumptions C12_nonvacuous_repaired.
+
+(* the library's group function handlers (Model/GroupFnDefs.v, property C09) satisfy the contract of statement 6: they never change
+   the mode, so hb_inactive_silent holds for the node as shipped (gf := gf_lib) *)
+From N2kV Require Model.GroupFnDefs Proofs.GroupFnContractsB.
+Theorem C12_gf_lib_keeps_mode : gf_keeps_mode GroupFnDefs.gf_lib.  Proof. exact GroupFnContractsB.gf_lib_keeps_mode. Qed.
+Print Assumptions C12_gf_lib_keeps_mode.
